@@ -90,6 +90,21 @@ Theorem C19_tracer_reports_what_ran : forall W M HT can_transfer transfer balanc
 Proof. exact traced_frames. Qed.
 Print Assumptions C19_tracer_reports_what_ran.
 
+(** ... and for the WHOLE top-level CALL (EVM.Call driven directly, debug tracer + Aspect logger attached): unless the call
+    is refused before anything is reported, the callbacks are CaptureStart, the Aspect executions of the pre join point,
+    the forest of the calls the code makes, those of the post join point, CaptureEnd — and callTracer's result on exactly
+    these callbacks is the frame of that tree. *)
+Theorem C19_top_level_call_traced : forall W M HT can_transfer transfer balance_of exists_acct create_account code_of collides get_nonce set_nonce acl_add set_code touch is_homestead is_eip158 is_berlin is_london max_code_size is_precompile precompile local_step init_machine keccak artela jp_on asp_logger bound aspect,
+  (forall d fc m w, forallb silent (step_events (local_step d fc m w)) = true) ->
+  forall fuel hint ps caller addr input gas value s r s',
+  do_call W M HT can_transfer transfer balance_of exists_acct create_account code_of collides get_nonce set_nonce acl_add set_code touch is_homestead is_eip158 is_berlin is_london max_code_size is_precompile precompile local_step init_machine keccak artela jp_on true asp_logger bound aspect fuel 0 hint ps caller addr input gas value s = Some (r, s') ->
+  xe s' = xe s \/
+  exists ev x, xe s' = xe s ++ ev /\ trs ev = events_call x /\
+    x_from x = caller /\ x_to x = addr /\ x_input x = input /\ x_value x = value /\ x_create x = false /\
+    match ct_run false t_init (trs ev) with Ok st => ct_result st | Err e => Err e | Panic e => Panic e end = Ok (frame_call x).
+Proof. exact traced_top_call. Qed.
+Print Assumptions C19_top_level_call_traced.
+
 From Verif Require Import Model.ScriptInst.
 (** non-vacuity of the side condition: the instance run against the code (recorded scripts) emits only step events *)
 Example C19_side_condition_inhabited : forall d fc m w, forallb silent (step_events (s_step d fc m w)) = true.
